@@ -37,6 +37,17 @@ def r1_validate(idx, r):
     si = idx.method(SETTINGS, "__setitem__")
     ok = any(call_attr(c) == "setValue" for c in iter_calls(si.node)) and any(isinstance(n, ast.Raise) for n in walk_local(si.node)) and not [s for s in iter_stores(si.node) if s.attr == "_value"]
     r.require(ok, "Settings.__setitem__", si, msg="cs[key] = v must validate through Setting.setValue and refuse unknown keys")
+    # the two writers that take the value FROM the default must copy it: otherwise value and default are one object and an
+    # in-place edit of a container value changes the default as well (the setting then looks "at default" and is not written)
+    for meth in ("__init__", "revertToDefault"):
+        g = idx.method(SETTING, meth)
+        for st_ in [s_ for s_ in iter_stores(g.node) if s_.chain == "self._value" and s_.kind == "assign"]:
+            v = st_.value
+            from_default = any(isinstance(x, (ast.Name, ast.Attribute)) and (getattr(x, "id", None) == "default" or getattr(x, "attr", None) in ("default", "_default")) for x in ast.walk(v))
+            copied = isinstance(v, ast.Call) and dotted(v.func) in ("copy.deepcopy", "deepcopy")
+            r.require(copied or not from_default, f"Setting.{meth}:value-is-a-deep-copy-of-the-default", g, node=st_.stmt,
+                      msg=f"`{norm(st_.stmt)}` makes the live value and the stored default the same object: after an in-place edit (cs['buGroups'].append(..)) the default has changed too, "
+                          "the setting counts as 'at default', the short style omits it and the value is lost on read-back")
     allowed = {"Setting.__init__": "initial value is a copy of the default", "Setting.setValue": "validated store", "Setting.revertToDefault": "copy of the default",
                "Setting.__copy__": "copy of the current value", "Settings.__setstate__": "unpickling: values were validated when first set"}
     check_writers(r, idx, "_value", allowed, relevant=lambda f, s: f.module.name.startswith("armi.settings") or (f.cls is not None and f.cls.is_subclass_of(idx.cls(SETTING))) or (s.chain or "").startswith("setting"))
